@@ -8,6 +8,7 @@ import (
 	"os"
 	"sort"
 	"strings"
+	"sync"
 
 	"golang.org/x/tools/go/packages"
 	"golang.org/x/tools/go/ssa"
@@ -25,6 +26,9 @@ type Prog struct {
 	PPkgs map[string]*packages.Package
 	// function index: "pkgname.Func", "pkgname.(*T).M", "pkgname.T.M", "pkgname.Func$1"
 	Funcs map[string]*ssa.Function
+
+	contOnce sync.Once
+	cont     map[string][]string
 }
 
 func repoRoot() string {
